@@ -54,6 +54,10 @@ pub struct HistoryParams {
     pub allow_mixed_providers: bool,
     pub cross_decrypt_every: u64,
     pub stores: Vec<StoreKind>,
+    /// create the group with an ExternalSendersExt listing a harness-held identity
+    pub external_sender: bool,
+    /// handshake messages always public (an outside observer must be able to follow)
+    pub force_public_handshake: bool,
 }
 
 impl HistoryParams {
@@ -66,6 +70,8 @@ impl HistoryParams {
             allow_mixed_providers: true,
             cross_decrypt_every: 1,
             stores: vec![StoreKind::Mem],
+            external_sender: false,
+            force_public_handshake: false,
         }
     }
 }
@@ -164,6 +170,10 @@ pub fn world_cfg_from_case(case: &Case, hp: &HistoryParams) -> WorldCfg {
     cfg.store = hp.stores[pick(case.c(4), hp.stores.len())];
     cfg.retention = 1 + pick(case.c(5), 5);
     cfg.sql_key_packages = cfg.store != StoreKind::Mem;
+    if hp.force_public_handshake {
+        cfg.encrypt_handshake = false;
+        cfg.vary_options = false;
+    }
     cfg
 }
 
@@ -194,6 +204,10 @@ impl<'a> History<'a> {
         let mut w = World::new(prop, cfg);
         // external PSKs known to everybody (C18 varies this)
         let creator = w.new_party();
+        if hp.external_sender {
+            let cs = w.parties[creator].suite_provider(w.cfg.suite);
+            w.external_sender = Some(make_identity(&cs, b"external-sender"));
+        }
         if let Err(e) = w.create_group(creator) {
             return Err(setup_failure(prop, "create_group", &e));
         }
